@@ -25,6 +25,7 @@ EXPLANATION += ' R04.8: the whole-line rewrite of an inlined call is refused for
 EXPLANATION += " R04.9: in the anchored modules and the shared text utilities no source text is cut with str.splitlines() (it breaks at form feed, \x1c-\x1e, \x85, U+2028/9; rope's and the ast's line numbers count \n only)."
 EXPLANATION += " R04.10: inside the loop over the files of a refactoring no handler swallows an error (a file is never silently left out of a multi-file change)."
 EXPLANATION += " R04.11: program text that is moved is not whitespace-normalised (the result of `\" \".join(text.split())` is only ever compared, never emitted)."
+EXPLANATION += " R04.12 (=R19.16): the body of an inlined function is re-indented line by line only outside string literals."
 ASSUMPTIONS = ["alias tracking is flow-insensitive (x = self.attr makes x an alias for the whole method)",
                "dict()/list()/set()/.copy()/sorted()/slicing create copies"]
 
@@ -311,5 +312,8 @@ def check(ctx, res) -> None:
     from .common import no_whitespace_normalisation_rule as _wn
 
     _wn(ctx, res, "R04.11", ('rope.refactor.inline', 'rope.refactor.functionutils', 'rope.refactor.sourceutils', 'rope.base.worder'))
+    from .common import string_aware_indent_rule as _si
+
+    _si(ctx, res, "R04.12", sorted(m for m in ctx.idx.units if m.startswith("rope.refactor")))
 
 
